@@ -439,7 +439,7 @@ def run(run: Run):
     borrow(run, 'C11.R7', c02.r2, src)
     borrow(run, 'C11.R7', c02.r4_r5, src)
     from ..grammar import get_grammar as _gg
-    borrow(run, 'C11.R7', c02.r1, src, _gg(src))          # the corners of the area as the reference regex groups give them
+    borrow(run, 'C11.R7', c02.r1_any, src, _gg(src))          # the corners of the area as the reference regex groups give them
     run.floor('C11.R7', 14)
     run.floor('C11.R1', 4)
     run.floor('C11.R2', 50)
